@@ -102,7 +102,7 @@ CHECKS.update({
 
 CHECKS.update({
  "C10": dict(engine="Lex",
-  technique="TLA+ token/rewrite model Lex.tla (8 rewrite rules with enabling conditions E1-E16) model-checked for canon-invariance of every enabled rewrite; TLC-computed enabled sites and rewrite results must equal those of the independent tokenizer harness/lex.py; TLC-simulated rewrite behaviours replayed on the 21 corpus programs and 31 generated programs, images compared through the real assembler",
+  technique="TLA+ token/rewrite model Lex.tla (8 rewrite rules with enabling conditions E1-E16) model-checked for canon-invariance of every enabled rewrite; TLC-computed enabled sites and rewrite results must equal those of the independent tokenizer harness/lex.py; TLC-simulated rewrite behaviours replayed on the 21 corpus programs and 32 generated programs (one of them made of escape-only character literals, whose escape letters and hex digits CaseFlip respells), images compared through the real assembler",
   text="Model checking (bounded exhaustive: all token strings <= 3 (quick) / 4 (thorough) tokens over 25 token classes plus the abstract token windows of real statements) with conformance replay: about 1.3k rewritten program variants / 280k site rewrites in quick, 25k variants in thorough; outcome, base and bytes must equal the original spelling's.",
   note="Trusted: harness/lex.py token classification (statements it does not understand are opaque and never rewritten), the synonym table from the handbooks, TLC. Included files of corpus programs are not rewritten. Implicit word lists starting with a dotted symbol are an open known finding (excluded from the rewrite).",
   design="DESIGN.md 3.5, 5 (C10)"),
